@@ -25,7 +25,7 @@ import (
 )
 
 func copyValue(i, o thrift.TProtocol, t thrift.TType, depth int) error {
-	if depth > 200 {
+	if depth > 10000 {
 		return fmt.Errorf("too deep")
 	}
 	switch t {
